@@ -3,6 +3,7 @@ import os, re, subprocess, time
 import checklib as L
 
 GEN_V = os.path.join(L.COQ, "Gen", "Schemas.v")
+last_cases = []
 
 
 def generate(ctx=None):
